@@ -26,6 +26,75 @@ HARNESSES = [
     dict(name="c14_new_sized_for_every_index", file="frequency_counter.rs", props=["C14", "C17"], timeout=300,
          encodes=[FC + "FrequencyCounter::new", FC + "FrequencyCounter::matrix", FC + "FrequencyCounter::seeds",
                   FC + "FrequencyCounter::increment", FC + "FrequencyCounter::estimate"]),
+    dict(name="c14_doorkeeper_step", file="doorkeeper.rs", props=["C14"], timeout=120,
+         encodes=["tinylfu_cached::cache::lfu::doorkeeper::DoorKeeper::{new,add_if_missing,has,clear}"]),
+    dict(name="c14_tinylfu_one_access_step", file="tiny_lfu.rs", props=["C14"], timeout=300,
+         encodes=["tinylfu_cached::cache::lfu::tiny_lfu::TinyLFU::{increment_access_for,estimate,reset}", FC + "FrequencyCounter::{increment,estimate,reset}"]),
+    dict(name="c14_tinylfu_never_undercounts_in_window", file="tiny_lfu.rs", props=["C14"], timeout=300,
+         encodes=["tinylfu_cached::cache::lfu::tiny_lfu::TinyLFU::{increment_access_for,estimate}"]),
+    dict(name="c14_tinylfu_new", file="tiny_lfu.rs", props=["C14", "C17"], timeout=300,
+         encodes=["tinylfu_cached::cache::lfu::tiny_lfu::TinyLFU::new"]),
+    dict(name="c14_tinylfu_clear", file="tiny_lfu.rs", props=["C14"], timeout=300,
+         encodes=["tinylfu_cached::cache::lfu::tiny_lfu::TinyLFU::clear"]),
+    # ---------------------------------------------------------------- C16 stats
+    dict(name="c16_hit_ratio_kernel", file="stats.rs", props=["C16"], timeout=300, encodes=["tinylfu_cached::cache::stats::ConcurrentStatsCounter::hit_ratio"]),
+    dict(name="c16_counters_frame", file="stats.rs", props=["C16"], timeout=300, encodes=["tinylfu_cached::cache::stats::ConcurrentStatsCounter::{add,get,clear,found_a_hit,found_a_miss,add_key,delete_key,update_key,reject_key,add_weight,remove_weight,add_access,drop_access}"]),
+    dict(name="c16_new_starts_at_zero", file="stats.rs", props=["C16"], timeout=300, encodes=["tinylfu_cached::cache::stats::ConcurrentStatsCounter::new"]),
+    dict(name="c16_summary_reports_each_counter", file="stats.rs", props=["C16"], timeout=300, encodes=["tinylfu_cached::cache::stats::ConcurrentStatsCounter::summary", "tinylfu_cached::cache::stats::StatsSummary::get"]),
+    # ---------------------------------------------------------------- C09 expiry
+    dict(name="c09_put_then_look", file="stored_value.rs", props=["C09"], timeout=300,
+         encodes=["tinylfu_cached::cache::store::stored_value::StoredValue::{expiring,never_expiring,is_alive,calculate_expiry,expire_after}", "tinylfu_cached::cache::clock::Clock::has_passed"]),
+    dict(name="c09_ttl_change_then_look", file="stored_value.rs", props=["C09", "C08"], timeout=300,
+         encodes=["tinylfu_cached::cache::store::stored_value::StoredValue::{expiring,never_expiring,is_alive,update,calculate_expiry,expire_after}", "tinylfu_cached::cache::clock::Clock::has_passed"]),
+    dict(name="c09_clock_has_passed_kernel", file="stored_value.rs", props=["C09"], timeout=120, encodes=["tinylfu_cached::cache::clock::Clock::has_passed"]),
+    # ---------------------------------------------------------------- C12 acknowledgement
+    dict(name="c12_done_races_poll", file="acknowledgement.rs", props=["C12", "C18"], timeout=300,
+         encodes=["tinylfu_cached::cache::command::acknowledgement::CommandAcknowledgementHandle::{done,poll}", "CommandAcknowledgement::new"]),
+    dict(name="c12_poll_races_done", file="acknowledgement.rs", props=["C12", "C18"], timeout=300,
+         encodes=["tinylfu_cached::cache::command::acknowledgement::CommandAcknowledgementHandle::{done,poll}"]),
+    dict(name="c12_preresolved", file="acknowledgement.rs", props=["C12"], timeout=120,
+         encodes=["tinylfu_cached::cache::command::acknowledgement::CommandAcknowledgement::{accepted,rejected}"]),
+    # ---------------------------------------------------------------- cache weight (C01/C05/C16) and sampler (C06)
+    dict(name="c05_cache_weight_step", file="cache_weight.rs", props=["C05", "C01", "C16", "C03"], timeout=400,
+         encodes=["tinylfu_cached::cache::policy::cache_weight::CacheWeight::{is_space_available_for,add,update,delete,clear,contains,weight_of,update_weight_stats}"]),
+    dict(name="c06_sampled_key_order_kernel", file="cache_weight.rs", props=["C06"], timeout=120,
+         encodes=["tinylfu_cached::cache::policy::cache_weight::SampledKey::{cmp,partial_cmp,eq}"]),
+    dict(name="c06_sampler_pop_and_refill", file="cache_weight.rs", props=["C06"], timeout=600,
+         encodes=["tinylfu_cached::cache::policy::cache_weight::FrequencyCounterBasedMinHeapSamples::{new,initial_sample,min_frequency_key,maybe_fill_in,size}", "CacheWeight::{sample,delete}"]),
+    dict(name="c06_sampler_victim_order", file="cache_weight.rs", props=["C06"], timeout=600,
+         encodes=["tinylfu_cached::cache::policy::cache_weight::FrequencyCounterBasedMinHeapSamples::{new,initial_sample,min_frequency_key}", "SampledKey::cmp"]),
+    # ---------------------------------------------------------------- store (C02, C09, C04, C07, C08)
+    dict(name="c02_store_reads_agree_with_abstract_map", file="store.rs", props=["C02", "C09", "C16", "C07"], timeout=600,
+         encodes=["tinylfu_cached::cache::store::Store::{get,get_ref,contains,is_present}", "StoredValue::is_alive", "KeyValueRef::{key,value}"]),
+    dict(name="c02_store_write_step", file="store.rs", props=["C02", "C04", "C08", "C16", "C03"], timeout=600,
+         encodes=["tinylfu_cached::cache::store::Store::{put,put_with_ttl,delete,mark_deleted,update,clear}", "UpdateResponse::{did_update_happen,existing_expiry,new_expiry,value,key_id_or_panic}"]),
+    # ---------------------------------------------------------------- admission (C06, C01, C03)
+    dict(name="c06_maybe_add_rule_1_resident", file="admission_policy.rs", props=["C06", "C01", "C03", "C05"], timeout=1200, tier="quick",
+         encodes=["tinylfu_cached::cache::policy::admission_policy::AdmissionPolicy::{maybe_add,create_space,estimate}", "CacheWeight::{is_space_available_for,add,delete,sample}",
+                  "FrequencyCounterBasedMinHeapSamples::{new,initial_sample,min_frequency_key,maybe_fill_in}", "TinyLFU::estimate", "FrequencyCounter::estimate", "DoorKeeper::has"]),
+    dict(name="c06_maybe_add_rule_2_residents", file="admission_policy.rs", props=["C06", "C01", "C03", "C05"], timeout=1200, tier="quick",
+         encodes=["tinylfu_cached::cache::policy::admission_policy::AdmissionPolicy::{maybe_add,create_space,estimate}", "CacheWeight::{is_space_available_for,add,delete,sample}",
+                  "FrequencyCounterBasedMinHeapSamples::{new,initial_sample,min_frequency_key,maybe_fill_in}", "TinyLFU::estimate", "FrequencyCounter::estimate", "DoorKeeper::has"]),
+    dict(name="c06_maybe_add_rule_3_residents", file="admission_policy.rs", props=["C06", "C01", "C03", "C05"], timeout=1200, tier="quick",
+         encodes=["tinylfu_cached::cache::policy::admission_policy::AdmissionPolicy::{maybe_add,create_space,estimate}", "CacheWeight::{is_space_available_for,add,delete,sample}",
+                  "FrequencyCounterBasedMinHeapSamples::{new,initial_sample,min_frequency_key,maybe_fill_in}", "TinyLFU::estimate", "FrequencyCounter::estimate", "DoorKeeper::has"]),
+    dict(name="c06_maybe_add_rule_any_residents", file="admission_policy.rs", props=["C06", "C01", "C03", "C05"], timeout=1200, tier="thorough",
+         encodes=["tinylfu_cached::cache::policy::admission_policy::AdmissionPolicy::{maybe_add,create_space,estimate}", "CacheWeight::{is_space_available_for,add,delete,sample}",
+                  "FrequencyCounterBasedMinHeapSamples::{new,initial_sample,min_frequency_key,maybe_fill_in}", "TinyLFU::estimate", "FrequencyCounter::estimate", "DoorKeeper::has"]),
+    # ---------------------------------------------------------------- whole CacheD: reads (C02)
+    dict(name="c02_all_read_variants_agree", file="cached.rs", props=["C02", "C09", "C16", "C15"], timeout=900,
+         encodes=["tinylfu_cached::cache::cached::CacheD::{get,get_ref,map_get,map_get_ref,multi_get,multi_get_iterator,multi_get_map_iterator,mark_key_accessed,is_shutting_down}",
+                  "MultiGetIterator::next", "MultiGetMapIterator::next", "Store::{get,get_ref}", "Pool::add"]),
+    dict(name="c02_multi_key_reads", file="cached.rs", props=["C02"], timeout=900,
+         encodes=["tinylfu_cached::cache::cached::CacheD::{multi_get,multi_get_iterator,multi_get_map_iterator}", "MultiGetIterator::next", "MultiGetMapIterator::next"]),
+    dict(name="c07_put_client_step", file="cached.rs", props=["C07", "C05", "C11", "C17"], timeout=900,
+         encodes=["tinylfu_cached::cache::cached::CacheD::{put,put_with_weight,put_with_ttl,put_with_weight_and_ttl,key_description}", "Store::is_present", "CommandExecutor::send", "Calculation::perform", "CommandAcknowledgement::{new,rejected}"]),
+    dict(name="c04_delete_hides_then_releases", file="cached.rs", props=["C04", "C05", "C16", "C11", "C12"], timeout=900,
+         encodes=["tinylfu_cached::cache::cached::CacheD::{delete,get,get_ref,put_with_weight,total_weight_used}", "Store::{mark_deleted,delete}", "CommandExecutor::{send,spin (worker closure),delete}", "AdmissionPolicy::delete", "CacheWeight::delete", "TTLTicker::delete", "CommandAcknowledgementHandle::{done,poll}"]),
+    dict(name="c08_put_or_update_step", file="cached.rs", props=["C08", "C10", "C05", "C17"], timeout=1500,
+         encodes=["tinylfu_cached::cache::cached::CacheD::{put_or_update,get,key_description}", "PutOrUpdateRequest::updated_weight", "Store::update", "StoredValue::update", "UpdateResponse::type_of_expiry_update", "TTLTicker::{put,update,delete}", "AdmissionPolicy::{weight_of,update}", "CacheWeight::update", "CommandExecutor::{send,spin (worker closure: UpdateWeight arm)}"]),
+    dict(name="c05_worker_put_step", file="cached.rs", props=["C05", "C03", "C01", "C16", "C10", "C11"], timeout=1800,
+         encodes=["tinylfu_cached::cache::command::command_executor::CommandExecutor::{spin (worker closure: Put, PutWithTTL arms),put,put_with_ttl,send}", "AdmissionPolicy::{maybe_add,create_space}", "Store::{put,put_with_ttl,delete (as eviction hook)}", "TTLTicker::put", "CommandAcknowledgementHandle::done"]),
 ]
 
 PROPERTY_NOTES = {
